@@ -73,6 +73,11 @@ def to_storage(X, storage):
         return sparse.csc_matrix(X)
     if storage == "csr":
         return sparse.csr_matrix(X)
+    if storage == "csc_explicit":
+        Xd = np.asarray(X, dtype=float)
+        n, p_ = Xd.shape
+        return sparse.csc_matrix((Xd.ravel(order="F").copy(), np.tile(np.arange(n, dtype=np.int32), p_),
+                                  np.arange(0, n * p_ + 1, n, dtype=np.int32)), shape=(n, p_))
     raise KeyError(storage)
 
 
